@@ -109,6 +109,7 @@ PROPS["C01"] = {
         ("R-DATA-WEIGHT-ONCE", rp2.rule_data_weight_once, {}),
         ("R-ROW-SCALING", rp2.rule_row_scaling, {}),
         ("R-SIBLING", rp2.rule_sibling, {"configs": ("parallel",)}),
+        ("R-NALGEBRA-SOLVE", rules_lm.rule_nalgebra_solve, {"configs": ("default",)}),
     ],
     "explanation": "Provenance of the coefficient solve decided on the term reconstructed from MIR for both LeastSquaresProblem impls: "
                    "cached coefficients = SVD::solve(svd(W*Model::eval(model after Model::set_params), true, true), weighted data role, epsilon role by pure copy); "
